@@ -876,6 +876,12 @@ func (s *sharedEntryAttributes) getHighestPrecedenceValueOfBranch() int32 {
 // it will multiplex all the different Validations that need to happen
 func (s *sharedEntryAttributes) Validate(ctx context.Context, resultChan chan<- *types.ValidationResultEntry, vCfg *config.Validation) {
 
+	// a container that is not set itself and in which nothing but schema defaults remain does not exist (any more),
+	// the defaults in it are not in effect.
+	if s.childs.Length() > 0 && !s.leafVariants.remainsToExist() && s.remainsOnlyThroughDefaults(ctx) {
+		return
+	}
+
 	// recurse the call to the child elements
 	wg := sync.WaitGroup{}
 	defer wg.Wait()
@@ -1231,6 +1237,10 @@ func (s *sharedEntryAttributes) remainsOnlyThroughDefaults(ctx context.Context) 
 	for _, c := range s.filterActiveChoiceCaseChilds() {
 		if !c.remainsToExist() {
 			continue
+		}
+		// only leafs and leaf-lists carry defaults
+		if c.GetSchema().GetField() == nil && c.GetSchema().GetLeaflist() == nil {
+			return false
 		}
 		le, err := c.getHighestPrecedenceLeafValue(ctx)
 		if err != nil || le == nil || le.Owner() != DefaultsIntentName {
